@@ -84,7 +84,7 @@ EXPECTED_PROBES = [
     "probe.btree_split_during_get", "probe.btree_depth_ge_3", "probe.tx_conflict_abort", "probe.tx_commit_between_reads",
     "probe.tx_overlap", "probe.tx_read_own_write", "probe.tx_mixed_levels_committed",
     "probe.non_serializable_commit_wrote_key_read_by_open_serializable_tx", "probe.tx_commit_inside_another_commit_latency",
-    "probe.concurrent_flushes_with_different_write_times",
+    "probe.concurrent_flushes_with_different_write_times", "probe.second_instance_ran_alongside",
     "probe.sync_api_op_in_history", "probe.preloaded_through_put_sync", "probe.synchronous_flush_in_history",
     "probe.tx_commit_in_storage_history", "probe.l0_holds_sync_and_generator_flush_tables", "probe.mixed_origin_l0_tables_compacted",
 ]
@@ -134,6 +134,13 @@ M_MIX = (35, 15, 35, 15)
 
 
 def gen(rng, tier):
+    sc = _gen_one(rng, tier)
+    if rng.random() < 0.25:
+        sc["twin"] = _gen_twin(rng, sc["kind"])
+    return sc
+
+
+def _gen_one(rng, tier):
     r = rng.random()
     if r < 0.50:
         return _gen_lsm(rng)
@@ -275,6 +282,87 @@ class Pending(Exception):
     pass
 
 
+class Twin(Entity):
+    """A second, independent instance of the same engine (plus its own TransactionManager) in the same Simulation, driven by
+    one sequential client and compared op by op with a plain dict: two instances must not share state.  A violation here is
+    reported under its own invariant id and never mixes with the primary history."""
+
+    def __init__(self, spec, engine_spec, iso=None, keys=None):
+        super().__init__("twin")
+        self.keys = list(keys or ["t00"])  # the SAME key names as the primary store: shared state would show immediately
+        if not isinstance(spec, dict) or not isinstance(spec.get("ops"), list):
+            raise InvalidScenario("twin")
+        self.spec = spec
+        self.store, self.ents = S.build_engine(engine_spec, name="db2")
+        self.cls = type(self.store).__name__
+        self.tm = TransactionManager("txm2", store=self.store, isolation=iso or IsolationLevel.SERIALIZABLE)
+        self.model = {}
+        self.bad = None
+        self.done = False
+        self.ops_done = 0
+
+    def entities(self):
+        return self.ents + [self.tm, self]
+
+    def handle_event(self, event):
+        return self._body()
+
+    def _body(self):
+        st, model = self.store, self.model
+        for i, op in enumerate(self.spec["ops"]):
+            if not isinstance(op, dict):
+                raise InvalidScenario("twin op")
+            g = S.gap_s(op)
+            if g > 0:
+                yield g
+            k = op.get("k")
+            if isinstance(k, bool) or not isinstance(k, int) or not 0 <= k < 64:
+                raise InvalidScenario("twin key")
+            key, kind = self.keys[k % len(self.keys)], op.get("op")
+            val = f"w{i}"
+            if kind == "put":
+                yield from st.put(key, val)
+                model[key] = val
+            elif kind == "put_sync":
+                st.put_sync(key, val)
+                model[key] = val
+            elif kind == "delete":
+                if not hasattr(st, "delete"):
+                    raise InvalidScenario("no delete")
+                yield from st.delete(key)
+                model.pop(key, None)
+            elif kind in ("get", "get_sync"):
+                got = (yield from st.get(key)) if kind == "get" else st.get_sync(key)
+                if got != model.get(key):
+                    self.bad = (f"C14/twin-instance-isolated/{self.cls}/sequential-read-differs-from-own-writes",
+                                f"second {self.cls} instance in the same simulation: {kind}({key}) returned {got!r}, its only client "
+                                f"had written {model.get(key)!r}")
+                    return
+            elif kind == "tx":
+                tx = yield from self.tm.begin()
+                got = yield from tx.read(key)
+                yield from tx.write(key, val)
+                ok = yield from tx.commit()
+                if got != model.get(key) or not ok:
+                    what = "spurious-abort" if not ok else "transaction-read-differs-from-own-writes"
+                    self.bad = (f"C14/twin-instance-isolated/TransactionManager/{what}",
+                                f"the only transaction running on the second manager (read+write {key}) "
+                                f"{'was aborted' if not ok else f'read {got!r}, expected {model.get(key)!r}'}")
+                    return
+                model[key] = val
+            else:
+                raise InvalidScenario("twin op kind")
+            self.ops_done += 1
+        self.done = True
+
+
+def _gen_twin(rng, kind):
+    kinds = ["put", "put", "get", "get", "tx", "put_sync", "get_sync"] + (["delete"] if kind != "btree" or True else [])
+    return {"start_ns": rng.choice([0, 0, 1_000, 1_000_000]),
+            "ops": [{"op": rng.choice(kinds), "k": rng.randrange(5), "gap_ns": rng.choice([0, 0, 1_000, 100_000, 1_000_000])}
+                    for _ in range(rng.randint(4, 14))]}
+
+
 class StoreRun:
     def __init__(self, sc):
         self.sc = sc
@@ -302,7 +390,8 @@ class StoreRun:
         self.kicker = S.Kicker("kicker", self.store, self.tracker) if self.is_lsm else None
         # transaction commits inside a storage history go through put_sync (READ_COMMITTED never aborts)
         self.tm = TransactionManager("txm", store=self.store, isolation=IsolationLevel.READ_COMMITTED)
-        self.entities = ents + [self.tm] + self.clients + ([self.kicker] if self.kicker else [])
+        self.twin = Twin(sc["twin"], sc["engine"], None, sc["keys"]) if sc.get("twin") else None
+        self.entities = ents + [self.tm] + self.clients + ([self.kicker] if self.kicker else []) + (self.twin.entities() if self.twin else [])
         self.sync_sst: dict[int, object] = {}   # SSTables created by a synchronous flush/compaction (kept alive)
         self.mixed_l0: list | None = None
         self.watch = S.LsmWatch(self.store) if self.is_lsm else None
@@ -415,6 +504,8 @@ class StoreRun:
                     self.bump("probe.l0_holds_sync_and_generator_flush_tables")
             elif not self.c.get("probe.mixed_origin_l0_tables_compacted") and not any(t in l0 for t in self.mixed_l0):
                 self.bump("probe.mixed_origin_l0_tables_compacted")
+        if self.violation is None and self.twin is not None and self.twin.bad:
+            self.violation = Violation(*self.twin.bad)
         if self.violation is None and self.sc.get("probe"):
             self.probe_all("get_sync")
         if self.violation is not None:
@@ -623,6 +714,8 @@ def run_store(sc):
         if isinstance(st, bool) or not isinstance(st, int) or st < 0:
             raise InvalidScenario("start")
         sim.schedule(S.start_event(st, c))
+    if R.twin is not None:
+        sim.schedule(S.start_event(R.twin.spec.get("start_ns", 0) if isinstance(R.twin.spec.get("start_ns", 0), int) else 0, R.twin))
     trig = sc.get("triggers") or []
     if trig and not R.is_lsm:
         raise InvalidScenario("triggers need an LSM tree")
@@ -653,7 +746,9 @@ def run_store(sc):
         if R.violation is not None:  # raised flag but run ended on that very delivery
             sig, msg = R.violation.sig, R.violation.msg
         else:
-            if not all(c.done for c in R.clients):
+            if R.twin is not None and R.twin.bad:
+                sig, msg = R.twin.bad
+            elif not all(c.done for c in R.clients) or (R.twin is not None and not R.twin.done):
                 sig, msg = f"C14/no-progress/{R.cls}/client-never-finished", "a client operation never completed"
             else:
                 R.probe_all("final")
@@ -707,6 +802,9 @@ def run_store(sc):
     overl = any(R.c.get(p) for p in ("probe.read_overlaps_write_same_key", "probe.read_during_flush",
                                      "probe.read_during_compaction", "probe.btree_split_during_get"))
     R.c["reads_judged"] = R.reads_judged
+    if R.twin is not None:
+        R.bump("probe.second_instance_ran_alongside")
+        R.c["twin_ops"] = R.twin.ops_done
     R.c["ops_completed"] = sum(1 for o in R.hist.ops if o["ret"] is not None)
     return result(sig=sig, msg=msg or "", digest=_hist_digest(R.hist.ops), nontrivial=bool(overl and R.reads_judged >= 3),
                   counters=R.c, sim_s=mon.last_time_ns / 1e9, deliveries=mon.seq, klass=sc.get("klass", sc["kind"]), state=state)
@@ -736,7 +834,8 @@ class TxRun:
         if not isinstance(txs, list) or not txs:
             raise InvalidScenario("txs")
         self.clients = [TxClient(f"t{i}", i, spec, self) for i, spec in enumerate(txs)]
-        self.entities = ents + [self.tm] + self.clients
+        self.twin = Twin(sc["twin"], sc["engine"], ISO.get(sc["iso"]), sc["keys"]) if sc.get("twin") else None
+        self.entities = ents + [self.tm] + self.clients + (self.twin.entities() if self.twin else [])
         self.initial = {}
         for ki in sc.get("init") or []:
             k = self.keys[S.check_index(ki, len(self.keys))]
@@ -967,9 +1066,13 @@ def run_tx(sc):
         if isinstance(st, bool) or not isinstance(st, int) or st < 0:
             raise InvalidScenario("start")
         sim.schedule(S.start_event(st, c))
+    if R.twin is not None:
+        sim.schedule(S.start_event(R.twin.spec.get("start_ns", 0) if isinstance(R.twin.spec.get("start_ns", 0), int) else 0, R.twin))
     mon = Monitor(sim, cap=CAP)
     status, payload = run_sim(sim)
     counters = {}
+    if R.twin is not None:
+        counters["probe.second_instance_ran_alongside"] = 1
     sig = msg = None
     if status == "violation":
         sig, msg = f"C14/{payload.sig}", payload.msg
@@ -977,7 +1080,9 @@ def run_tx(sc):
         sig, msg = f"C14/tx/{payload.sig}", payload.msg
     elif status == "budget":
         sig, msg = "C14/no-progress/TransactionManager/delivery-cap", str(payload)
-    elif any(r["outcome"] == "unfinished" for r in R.recs):
+    elif R.twin is not None and R.twin.bad:
+        sig, msg = R.twin.bad
+    elif any(r["outcome"] == "unfinished" for r in R.recs) or (R.twin is not None and not R.twin.done):
         sig, msg = "C14/no-progress/TransactionManager/transaction-never-finished", "a transaction process never finished"
     else:
         bad = _judge_tx(R, counters)
